@@ -4,14 +4,17 @@ C22  Interrupted or retried recording never corrupts later runs.
 Spec: spec/cache/Backend.tla -- the database backend at commit granularity (every backend
 operation as a sequence of stage / autoflush / commit steps taken from the code, in-memory
 effects separate, db_retry as "rollback + re-enter the innermost operation"), the scheduler's
-lookup / recording order for a 3-job workload, environment = one OperationalError at any flush or
-commit point, or process death before / after any commit, then recovery runs with and without
-an edit.  TLC: foreign-key closure, Run = Fresh after recovery, a retried run completes with the
+lookup / recording order for a 3-job workload in two variants (chain; child declared prov=False,
+inherited by the grandchild, so that record_call_node of the parent records the subtree tasks itself
+-- nested record_value frames, any order of the task set -- before all CallSubtreeTask rows in one
+commit), environment = one OperationalError at any flush or commit point, or process death
+before / after any commit, then recovery runs with and without an edit (and edit + revert).  TLC: foreign-key closure, Run = Fresh after recovery, a retried run completes with the
 fault-free record set; on the as-built model these fail only through five named deviations, on
 the repaired model (five switches) they hold.
 Binding (harness/dbfault.py, DESIGN 2.3c):
-  spec -> code  every injection scenario of the model (quick: all fault points, all crash-before
-                points, a seeded sample of crash-after points; thorough: all) is executed on the
+  spec -> code  every injection scenario of the model (quick: all fault points, crash-before at the first
+                and last commit of every class, a seeded sample of crash-after points, one recovery tree
+                per distinct abstract state left behind; thorough: all) is executed on the
                 real backend (child process, file-based sqlite, os._exit / OperationalError from
                 SQLAlchemy session events) followed by the recovery tree; every real idle state
                 is looked up among the idle states the model allows for that history.
@@ -40,7 +43,10 @@ META = {
                   "each shown necessary and jointly sufficient by repair switches. Every scenario is "
                   "executed on the real backend (real process deaths, real db_retry) and every real "
                   "run is validated by TLC against the model, point by point and table by table.",
-    "level_note": "One fixed workload (parent/child/grandchild chain, shallow parent), one injection "
+    "level_note": "Two fixed workloads (parent/child/grandchild chain with a shallow parent; the same with "
+                  "the child declared prov=False, so that record_call_node(parent) records the subtree "
+                  "tasks itself, in any iteration order of the task set, before it writes all "
+                  "CallSubtreeTask rows in one commit), one injection "
                   "per history, sqlite; faults are raised before the commit takes effect (no "
                   "lost-acknowledgement faults), the controlled single-threaded event loop drives the "
                   "real Scheduler.",
